@@ -1,4 +1,4 @@
 SPECIFICATION Spec
-CONSTANTS MaxOps = 7 MaxNp = 2 MaxNd = 1 Bug = "asukeep"
+CONSTANTS MaxOps = 7 MaxNp = 2 MaxNd = 1 Bug = "asukeep" ZoomAuto = FALSE
 INVARIANTS InvValid InvReads InvSetter InvErr InvSetUp
 CHECK_DEADLOCK FALSE
